@@ -25,6 +25,7 @@ _COPIES = [
     (r"^C01\.kernel\.Torch(Categorical|Gaussian|Binomial)Layer", "C11"),
     (r"^C01\.kernel\.TorchConstantValueLayer", "C03"),
     (r"^C01\.kernel\.TorchEmbeddingLayer", "C06"),
+    (r"^C01\.address_book\.", "C02"),
 ]
 
 _existing = {o.id for o in V.REGISTRY}
